@@ -62,7 +62,7 @@ CONS = [  # (name, coefficients by station index)
 FEEDERS = [("feeder_A", (1, 0, 1)), ("feeder_B", (0, 1, 0))]  # two independent feeders (stations 0,2 / station 1)
 
 
-def _run(cx, sc, stations, station_of, battery, sched, n_cons, st_perm, c_perm, s_perm, k, H):
+def _run(cx, sc, stations, station_of, battery, sched, n_cons, st_perm, c_perm, s_perm, k, H, via_json=False):
     A = acn()
     net = A.ChargingNetwork()
     for j in st_perm:
@@ -147,6 +147,12 @@ def _run(cx, sc, stations, station_of, battery, sched, n_cons, st_perm, c_perm, 
 
     with warnings.catch_warnings():
         warnings.simplefilter("ignore")
+        if via_json:
+            # the not-yet-run simulator is written with the public to_json() and read back before it runs
+            sim = A.Simulator.from_json(sim.to_json())
+            sim.update_scheduler(algo)
+            net = sim.network
+            evs = list(sim.event_queue._queue[i][1].ev for i in range(len(sim.event_queue._queue)))
         sim.run()
     ids = net.station_ids
     n = sim.iteration
@@ -154,12 +160,15 @@ def _run(cx, sc, stations, station_of, battery, sched, n_cons, st_perm, c_perm, 
                 energy={ev.session_id: ev.energy_delivered for ev in evs}, order=ids)
 
 
-def h_pair(cx, stations, station_of, H, battery, sched, n_cons, st_perm, c_perm, s_perm, k, req_lo=0):
+def h_pair(cx, stations, station_of, H, battery, sched, n_cons, st_perm, c_perm, s_perm, k, req_lo=0, via_json=False):
     env.install(cx)
+    if via_json:
+        env.install_json(cx)
+        cx.tag("json_round_trip_before_run")
     sc = _scenario(cx, stations, station_of, H, battery, n_cons, distinct=("arrivals+departures" if sched == "fcfs_unint" else sched.startswith("fcfs")), req_lo=req_lo)
     ident = tuple(range(len(stations)))
     base = _run(cx, sc, stations, station_of, battery, sched, n_cons, ident, tuple(range(n_cons)), tuple(range(len(station_of))), 0, H)
-    other = _run(cx, sc, stations, station_of, battery, sched, n_cons, st_perm, c_perm, s_perm, k, H)
+    other = _run(cx, sc, stations, station_of, battery, sched, n_cons, st_perm, c_perm, s_perm, k, H, via_json=via_json)
     cx.tag("both_ran")
     cx.observe("n", [base["n"], other["n"]])
     cx.observe("rates", [list(base["rates"][s[0]]) for s in stations])
@@ -188,14 +197,18 @@ def jobs(tier):
     S3f = [("n3", "CC", 208, 0), ("n1", "AV5", 120, 0), ("n2", "CC", 240, 0)]
     js = []
 
-    def add(st, so, H, bat, sched, nc, sp, cp, ssp, k, cost=1, req_lo=0):
-        name = "pair[%s,n=%d,sess=%s,H=%d,%s,cons=%d,stations=%s,constraints=%s,sessions=%s,shift=%d]" % (
-            sched, len(st), "".join(map(str, so)), H, bat, nc, "".join(map(str, sp)), "".join(map(str, cp)), "".join(map(str, ssp)), k)
-        js.append(Job(name, h_pair, dict(stations=st, station_of=so, H=H, battery=bat, sched=sched, n_cons=nc, st_perm=sp, c_perm=cp, s_perm=ssp, k=k, req_lo=req_lo), functions=FUNCS,
+    def add(st, so, H, bat, sched, nc, sp, cp, ssp, k, cost=1, req_lo=0, via_json=False):
+        name = "pair[%s,n=%d,sess=%s,H=%d,%s,cons=%d,stations=%s,constraints=%s,sessions=%s,shift=%d%s]" % (
+            sched, len(st), "".join(map(str, so)), H, bat, nc, "".join(map(str, sp)), "".join(map(str, cp)), "".join(map(str, ssp)), k, ",json" if via_json else "")
+        js.append(Job(name, h_pair, dict(stations=st, station_of=so, H=H, battery=bat, sched=sched, n_cons=nc, st_perm=sp, c_perm=cp, s_perm=ssp, k=k, req_lo=req_lo, via_json=via_json), functions=FUNCS + (
+            ["acnportal.acnsim.base.BaseSimObj.to_json/from_json", "acnportal.acnsim.network.charging_network.ChargingNetwork._to_dict/_from_dict", "acnportal.acnsim.simulator.Simulator._to_dict/_from_dict/update_scheduler"] if via_json else []),
                       expect_tags=("both_ran",), max_paths=100000, timeout=6000,
                       bounds=dict(stations=len(st), sessions=len(so), horizon=H, battery=bat, scheduler=sched, constraints=nc, station_order=list(sp), constraint_order=list(cp),
                                   session_order=list(ssp), shift=k, requested_energy_kWh="(%s,100]" % req_lo), cost=cost * (10 ** len(so)) * H))
 
+    # the second run goes through a JSON round trip of the not-yet-run simulator (station ids are not in sorted order, voltages differ)
+    add(S2, (0, 1), 2, "ideal", "uncontrolled", 1, (0, 1), (0,), (0, 1), 0, via_json=True)
+    add(S2, (0, 1), 2 if q else 3, "huge", "uncontrolled", 2, (1, 0), (1, 0), (1, 0), 0, via_json=True)
     if q:
         add(S2, (0, 1), 2, "ideal", "scripted", 1, (0, 1), (0,), (0, 1), 0)            # identical twice
         add(S2, (0, 1), 2, "ideal", "scripted", 1, (1, 0), (0,), (0, 1), 0)            # stations
